@@ -66,6 +66,7 @@ inductive Op
   | last
   | read (s : Snapshot)
   | committed (s : Snapshot) (ids : List Nat)
+  | tupleVisible (s : Snapshot) (tmin : Nat) (tmax : Option Nat)
 
 def parseMods : List String → Option (List (Nat × String))
   | [] => some []
@@ -108,6 +109,10 @@ def parseOp (s : String) : Option Op :=
     match parseSnapshot [a, b, c, d, e], parseIds ids with
     | some s, some ids => if ids.isEmpty then none else some (.committed s ids)
     | _, _ => none
+  | ["i", a, b, c, d, e, tmin, tmax] =>
+    match parseSnapshot [a, b, c, d, e], parseNat tmin, (if tmax = "-" then some none else (parseNat tmax).map some) with
+    | some s, some tmin, some tmax => some (.tupleVisible s tmin tmax)
+    | _, _, _ => none
   | _ => none
 
 def showFail : Fail → String
@@ -170,6 +175,8 @@ def runOps (D : Defects) : List Op → Option St → List String → Option (Lis
       | .error e => runOps D rest (some { sch := sch, tuple := none }) (showFail e :: acc)
   | .committed s ids :: rest, st, acc =>
     runOps D rest st (("cb " ++ String.join (ids.map (fun i => if committedBefore D s i then "1" else "0"))) :: acc)
+  | .tupleVisible s tmin tmax :: rest, st, acc =>
+    runOps D rest st ((if isTupleVisible D s tmin tmax then "vis 1" else "vis 0") :: acc)
   | op :: rest, st, acc =>
     match st with
     | none => runOps D rest st ("nostate" :: acc)
